@@ -16,7 +16,9 @@
     component, anchor and guideline with names, identifiers, colours, transforms and libs, the
     glyph lib; dictionaries come back with their keys sorted at every level, which is what the
     writer does); the exact condition under which lib text and notes survive (finding F3);
-    independence of the write options.
+    independence of the write options; independence of a write from the writes before it
+    ([C02_encode_history_independent], tied to the code by the history stream of the run) and the
+    one way [encode_xml] fails ([C02_encode_fails_iff_uid_written]).
     Library behaviour beyond [H_ff]/[H_ff3] that [C02_roundtrip] takes as hypotheses (L1, validated
     on every value by the run): [H_fh] — hexadecimal code points; [H_fi] — plist integers between
     -2^63 and 2^64-1 are read back from their decimal text.  Base64 data needs no hypothesis (the
@@ -263,6 +265,44 @@ Theorem C02_options_irrelevant : forall ff fi ff3 fh o1 o2 g,
   (forall lib, written_lib g = Ok lib -> pv_plain (PDict (sort_keys_rec lib)) = true) ->
   encode_glif ff ff3 fi fh o1 g = encode_glif ff ff3 fi fh o2 g.
 Proof. exact encode_options_irrelevant. Qed.
+
+(** ---------- a history of writes ---------- *)
+(** The writer is a function of the glyph (with its UID positions), the options and the operation
+    alone: in any sequence of writes the i-th result is that of the i-th item, whatever was
+    written (or failed to be written) before.  In the model this holds by construction
+    ([encode_seq] is a map); it is tied to the implementation by the history stream of the run:
+    sequences of writes on one thread, failing ones included, each result compared with the same
+    write on a fresh thread and with [run_op]. *)
+Theorem C02_encode_history_independent : forall ff ff3 fi fh l i x,
+  nth_error l i = Some x ->
+  nth_error (encode_seq ff ff3 fi fh l) i = Some (run_op ff ff3 fi fh x).
+Proof. intros. unfold encode_seq. apply map_nth_error. assumption. Qed.
+(** without UID values the writer of a history item is [encode_glif] *)
+Theorem C02_encode_without_uid : forall ff ff3 fi fh o g,
+  encode_w ff ff3 fi fh o (mkW g []) = encode_glif ff ff3 fi fh o g.
+Proof. intros. unfold encode_w. cbn [w_glyph w_uids existsb]. destruct (written_lib g); reflexivity. Qed.
+(** the one failure of [encode_xml]: a UID value that reaches the property-list writer (the object
+    libs could be collected, i.e. every lib-carrying object has an identifier) *)
+Theorem C02_encode_fails_iff_uid_written : forall ff ff3 fi fh o g us lib,
+  written_lib g = Ok lib ->
+  (existsb (upos_written g) us = true -> encode_w ff ff3 fi fh o (mkW g us) = Err EPlistWrite) /\
+  (existsb (upos_written g) us = false -> exists t, encode_w ff ff3 fi fh o (mkW g us) = Ok t).
+Proof.
+  intros ff ff3 fi fh o g us lib H. unfold encode_w. cbn [w_glyph w_uids]. rewrite H. split; intros E; rewrite E.
+  - reflexivity.
+  - rewrite encode_tree. unfold enc_lib. rewrite H. cbn [bind]. destruct lib; cbn [bind]; eexists; reflexivity.
+Qed.
+(** a UID in the lib of a contour without points, or under a [public.objectLibs] key that the
+    object libs replace, does not reach the writer; elsewhere it does *)
+Example C02_uid_positions :
+  let a := mkAnchor f0 f0 None None (Some [105]) (Some [([107], PBool false)]) in
+  let g1 := mkGlyph [97] f0 f0 [] None None [] [] [] [mkContour [] (Some [99]) (Some [([107], PBool false)])] [] in
+  let g2 := mkGlyph [97] f0 f0 [] None None [] [a] [] [] [(objlibs_key, PDict [([107], PBool false)])] in
+  let g3 := mkGlyph [97] f0 f0 [] None None [] [] [] [] [(objlibs_key, PDict [([107], PBool false)])] in
+  upos_written g1 (UContour 0) = false /\ upos_written g2 (UGlyph objlibs_key) = false /\
+  upos_written g3 (UGlyph objlibs_key) = true /\ upos_written g2 (UAnchor 0) = true /\
+  upos_written g2 (UGlyph [107]) = true.
+Proof. vm_compute. repeat split; reflexivity. Qed.
 
 (** ---------- witnesses (the glyphs hold no number that gets printed, so the library functions
     are never called; they are instantiated with constants) ---------- *)
